@@ -154,6 +154,8 @@ def gen_cases(rng, tier):
             pts = gen_point_seq(rng, proto, "random", n)
             calls = [("NEW", "g"), ("EXT", "e1", "http://e.example/1"), ("PC", "pc", proto)] + [("PT", p) for p in pts] + [("PFIN",), ("PDROP",), ("FIN",)]
             cases.append(("limits:" + label, calls))
+    # a rejected finalize (incomplete limits of one kind) must not lose the limits of the other kind
+    cases += wapi.rejected_limits_cases(rng)
     # duplicate attribute names, several clouds per file, rejected points in between, limit overrides
     for _ in range(40 if tier == "quick" else 600):
         calls = [("NEW", "g")]
